@@ -204,7 +204,8 @@ func RunC15(env *sim.Env) {
 		c15Targets, c15RefDirs = lp(c15Targets), lp(c15RefDirs)
 		env.Stat("probe:names_longer_than_128_bytes", 1)
 	}
-	c.exts = [][]string{{"", ".jet", ".html.jet", ".jet.html"}, {"", ".jet"}, {".jet"}, {"", ".html"}}[t.Choose(4)]
+	// (the last list holds an "extension" that begins with a slash: directory index files)
+	c.exts = [][]string{{"", ".jet", ".html.jet", ".jet.html"}, {"", ".jet"}, {".jet"}, {"", ".html"}, {"", ".jet", "/index.jet"}}[t.Choose(5)]
 	useOS := t.Choose(8) == 7
 	var scratch string
 	if useOS {
@@ -311,9 +312,9 @@ func RunC15(env *sim.Env) {
 		c.curBases = []string{Normalize("/" + name), Normalize(refDir + "/" + name)}
 		c.allowed = map[string]bool{}
 		for _, e := range c.exts {
-			c.allowed[expected+e] = true
-			c.allowed[refPath+e] = true
-			c.allowed[refReq+e] = true
+			c.allowed[Normalize(expected+e)] = true
+			c.allowed[Normalize(refPath+e)] = true
+			c.allowed[Normalize(refReq+e)] = true
 		}
 		c.allowed[refReq] = true
 		// requests and cache keys may also be the extension-less forms
@@ -358,7 +359,7 @@ func RunC15(env *sim.Env) {
 			c.curName = pname + " -> " + inner
 			c.allowed = map[string]bool{exp2: true}
 			for _, e := range c.exts {
-				c.allowed[exp2+e] = true
+				c.allowed[Normalize(exp2+e)] = true
 			}
 			c.curBases = []string{Normalize("/" + inner)}
 			c.curOp = fmt.Sprintf("Parse(%q, include %q) (extensions %q, expected target %s)", pname, inner, c.exts, exp2)
@@ -382,7 +383,7 @@ func RunC15(env *sim.Env) {
 				up := "../" + strings.TrimPrefix(c15Targets[0], "/") // "../t.jet": one level above the referrer
 				upTarget := Normalize(refDir + "/" + up)
 				for _, e := range c.exts {
-					c.allowed[upTarget+e] = true
+					c.allowed[Normalize(upTarget+e)] = true
 				}
 				c.allowed[upTarget] = true
 				execute(fmt.Sprintf(`{{try}}{{include %q}}{{catch}}{{end}}[{{include %q}}]`, up, name), nil)
